@@ -44,12 +44,13 @@ def _lit_complete(c, pol, kind, cterm, n=None):
     return 0
 
 
-def run(eng, ctx):
+def run(eng, ctx, with_socket=True):
     # "the bytes delivered by the socket wrapper": what read()/readline() hand out of the decoded bytes, and when they report end of
     # stream, is the wrapper's FIFO / receive-result discipline (C11-D1..D5), a shared obligation
     from . import C11 as SOCKET
 
-    SOCKET.run(eng, ctx, reader_side=False)
+    if with_socket:
+        SOCKET.run(eng, ctx, reader_side=False)
     dq = eng.dechunker
     f = eng.repo.func(dq)
     rv = eng.repo.func(eng.socket_receiver)
